@@ -157,10 +157,21 @@ def site_mats_json(site, names):
     ops = []
     for n in sorted(names):
         m = getattr(site, n).to_ndarray()
-        es = [[int(r), int(c), float(np.real(m[r, c])), float(np.imag(m[r, c]))]
+        es = [[int(r), int(c), float_bits(np.real(m[r, c])), float_bits(np.imag(m[r, c]))]
               for r, c in zip(*np.nonzero(m))]
         ops.append([n, es])
     return {'d': int(site.dim), 'ops': ops}
+
+
+def float_bits(x):
+    """IEEE-754 bit pattern of a float64 as an integer (exact transport to and from Lean)"""
+    import struct
+    return struct.unpack('<Q', struct.pack('<d', float(x)))[0]
+
+
+def bits_float(n):
+    import struct
+    return struct.unpack('<d', struct.pack('<Q', int(n)))[0]
 
 
 def op_charge(site, name):
